@@ -31,7 +31,7 @@ def sched_jobs(tier, seed, gen=None, selections=False, faults=False, fault_rate=
     gen = gen or {}
     jobs = []
     if tier == "quick":
-        n_ctl, cases, n_dfs, dfs_shapes, dfs_limit, n_stress = 6, int(120 * scale), 3, 8, 150, 1
+        n_ctl, cases, n_dfs, dfs_shapes, dfs_limit, n_stress = 6, int(250 * scale), 4, 10, 200, 2
     else:
         n_ctl, cases, n_dfs, dfs_shapes, dfs_limit, n_stress = 20, int(1500 * scale), 12, 60, 1500, 4
     k = 0
@@ -185,16 +185,16 @@ def c07(tier, seed):
         hs = [0, 1, 2, 3]
         for h in hs:
             jobs.append(dict(kind="cp", exhaustive_n=[2, 3, 4, 5], part=0, nparts=1, random_cases=40, seed=seed * 97 + h, hashseed=h,
-                             variants={"target": "one", "root": 1, "exclude": 1, "config": 1, "debug": 1}))
+                             variants={"target": "one", "root": 1, "exclude": 1, "config": 1, "debug": 1, "compose": 1}))
         ex = "all 1098 DAGs on 2..5 topologically numbered nodes under PYTHONHASHSEED 0..3"
     else:
         hs = list(range(16))
         for h in hs:
             jobs.append(dict(kind="cp", exhaustive_n=[2, 3, 4, 5], part=0, nparts=1, random_cases=300, seed=seed * 97 + h, hashseed=h,
-                             variants={"target": "all", "root": 1, "exclude": 1, "config": 1, "debug": 1}))
+                             variants={"target": "all", "root": 1, "exclude": 1, "config": 1, "debug": 1, "compose": 1}))
         for p in range(16):
             jobs.append(dict(kind="cp", exhaustive_n=[6], part=p, nparts=16, random_cases=0, seed=seed * 97 + 100 + p, hashseed=(p * 5 + 1) % 16,
-                             variants={"target": "one", "root": 1, "exclude": 1, "config": 1, "debug": 1}))
+                             variants={"target": "one", "root": 1, "exclude": 1, "config": 1, "debug": 1, "compose": 1}))
         ex = "all DAGs on 2..5 nodes under 16 hash seeds with every single-target executor, all 32768 DAGs on 6 nodes (one hash seed each)"
     return dict(
         jobs=jobs, level="exploration", exhaustive=True,
@@ -229,7 +229,7 @@ ASSUME_DIFF = [
 
 def diff_jobs(pid, tier, seed, feats, depth, scale=1.0, clauses=True, only=None, nj_scale=1.0):
     if tier == "quick":
-        nj, np_ = max(1, int(8 * nj_scale)), int(70 * scale)
+        nj, np_ = max(1, int(8 * nj_scale)), int(150 * scale)
     else:
         nj, np_ = max(2, int(32 * nj_scale)), int(900 * scale)
     return [dict(kind="diff", pid=pid, n_programs=np_, reps=3, feats=feats, depth=depth, clauses=clauses, only=only, **_seeds(seed + 50, k)) for k in range(nj)]
@@ -277,7 +277,7 @@ def c12(tier, seed):
     if tier == "quick":
         jobs.append(dict(kind="sel", exhaustive_n=[2, 3], random_shapes=0, **_seeds(seed, 0)))
         for p in range(4):
-            jobs.append(dict(kind="sel", exhaustive_n=[], random_shapes=25, nmin=4, nmax=8, triples_per_shape=40, **_seeds(seed, 1 + p)))
+            jobs.append(dict(kind="sel", exhaustive_n=[], random_shapes=60, nmin=4, nmax=8, triples_per_shape=40, **_seeds(seed, 1 + p)))
         ex = "all DAGs on 2..3 nodes x every (R, X, T)"
     else:
         jobs.append(dict(kind="sel", exhaustive_n=[2, 3], random_shapes=0, **_seeds(seed, 0)))
@@ -303,7 +303,7 @@ def c13(tier, seed):
     jobs = []
     if tier == "quick":
         for p in range(6):
-            jobs.append(dict(kind="dbg", random_shapes=25, nmax=8, **_seeds(seed, p)))
+            jobs.append(dict(kind="dbg", random_shapes=60, nmax=8, **_seeds(seed, p)))
         jobs.append(dict(kind="dbg", random_shapes=0, exhaustive_n=[2, 3], **_seeds(seed, 9)))
     else:
         for p in range(16):
@@ -327,7 +327,7 @@ def c13(tier, seed):
 # ------------------------------------------------------------------------------------------------ histories
 @plan("C11")
 def c11(tier, seed):
-    nj, nh = (8, 60) if tier == "quick" else (32, 700)
+    nj, nh = (8, 250) if tier == "quick" else (32, 1200)
     return dict(
         jobs=[dict(kind="hist11", n_histories=nh, **_seeds(seed, k)) for k in range(nj)],
         level="exploration",
@@ -346,7 +346,7 @@ def c11(tier, seed):
 
 @plan("C15")
 def c15(tier, seed):
-    nj, nh = (8, 50) if tier == "quick" else (32, 600)
+    nj, nh = (8, 200) if tier == "quick" else (32, 1000)
     return dict(
         jobs=[dict(kind="hist15", n_histories=nh, **_seeds(seed, k)) for k in range(nj)],
         level="exploration",
@@ -364,7 +364,7 @@ def c15(tier, seed):
 
 @plan("C18")
 def c18(tier, seed):
-    nj, nc = (8, 50) if tier == "quick" else (32, 600)
+    nj, nc = (8, 250) if tier == "quick" else (32, 1200)
     return dict(
         jobs=[dict(kind="cache18", n_cases=nc, **_seeds(seed, k)) for k in range(nj)],
         level="exploration",
@@ -381,7 +381,7 @@ def c18(tier, seed):
 
 @plan("C19")
 def c19(tier, seed):
-    nj, nc = (8, 60) if tier == "quick" else (32, 700)
+    nj, nc = (8, 250) if tier == "quick" else (32, 1200)
     return dict(
         jobs=[dict(kind="comp19", n_cases=nc, **_seeds(seed, k)) for k in range(nj)],
         level="exploration",
@@ -401,9 +401,12 @@ def c19(tier, seed):
 # ------------------------------------------------------------------------------------------------ concurrency
 @plan("C16")
 def c16(tier, seed):
-    nj, nc = (8, 24) if tier == "quick" else (32, 240)
+    nj, nc = (8, 45) if tier == "quick" else (32, 300)
     return dict(
-        jobs=[dict(kind="conc16", n_cases=nc, lockset=True, **_seeds(seed, k)) for k in range(nj)],
+        jobs=[dict(kind="conc16", n_cases=nc, lockset=True, **_seeds(seed, k)) for k in range(nj)]
+        # forced pre-emption at statement boundaries of tawazi's own code (sys.monitoring LINE events, ~15x slower)
+        + [dict(kind="conc16", n_cases=(6 if tier == "quick" else 60), lockset=True, yield_inject=0.05, **_seeds(seed + 40, k))
+           for k in range(2 if tier == "quick" else 8)],
         level="exploration",
         rule="three workloads in rotation: (1) 2..16 threads x 1..3 calls of one generated DAG with distinct argument nonces (probes sleep 0..2 ms): "
         "every call returns the reference for its own arguments and the per-execution monitors C02-C05 hold inside every execution token; "
@@ -422,7 +425,7 @@ def c16(tier, seed):
 
 @plan("C17")
 def c17(tier, seed):
-    nj, nc = (8, 15) if tier == "quick" else (32, 150)
+    nj, nc = (8, 30) if tier == "quick" else (32, 200)
     return dict(
         jobs=[dict(kind="async17", n_cases=nc, big=(tier != "quick"), op_watchdog_s=30, **_seeds(seed, k)) for k in range(nj)],
         level="exploration",
